@@ -7,7 +7,8 @@
 //	-trace FILE  record the real output of every case (ascending child order, fresh Sort) as
 //	             ndjson for validation by ToposortTrace.tla (direction B)
 //	-cap N       at most N lines per disagreement class (all are counted in stats.class_counts)
-//	-corrupt N   self-test of the binding: damage the expectation of case N (must be reported)
+//	-corrupt N   self-test of the binding: the first case with index >= N that agrees with the model is checked
+//	             again against a damaged expectation (must be reported; stats.corrupted_case says which)
 package main
 
 import (
@@ -58,6 +59,7 @@ var (
 	current    atomic.Pointer[tcase]
 	classCount = map[string]int64{}
 	capPer     = 200
+	corrupted  = int64(-1)
 )
 
 func main() {
@@ -114,13 +116,7 @@ func main() {
 			fmt.Fprintln(os.Stderr, "harness: case shape")
 			os.Exit(2)
 		}
-		if n == *corrupt {
-			if len(c.Reach) > 0 {
-				c.Reach = c.Reach[1:]
-			} else {
-				c.Reach = []int{1}
-			}
-		}
+		before := nMismatch
 		n++
 		current.Store(c)
 		progress.Add(1)
@@ -192,10 +188,21 @@ func main() {
 		}
 		pout, ppanic := collectPtr(sharedPtr.Sort(roots, pdag), c.N)
 		check(c, "ptr", pout, ppanic)
+		if *corrupt >= 0 && corrupted < 0 && n-1 >= *corrupt && nMismatch == before {
+			// binding self-test: first agreeing case from index -corrupt on, checked again against a damaged expectation
+			corrupted = n - 1
+			d := *c
+			if len(d.Reach) > 0 {
+				d.Reach = d.Reach[1:]
+			} else {
+				d.Reach = []int{1}
+			}
+			check(&d, "ptr", pout, ppanic)
+		}
 	}
 	out.Flush()
 	_ = enc.Encode(map[string]any{"stats": map[string]any{"cases": n, "cyclic": nCyclic, "checks": nChecks,
-		"mismatches": nMismatch, "class_counts": classCount, "shapes": len(shapes), "trace_records": nTrace}})
+		"mismatches": nMismatch, "class_counts": classCount, "shapes": len(shapes), "trace_records": nTrace, "corrupted_case": corrupted}})
 	out.Flush()
 }
 
